@@ -48,6 +48,49 @@ def Config.extend (base : Config) (keys markers : Option (List Str)) : Config :=
     markers := match markers with | some ms => base.markers ++ ms.map lower | none => base.markers
     replacement := base.replacement }
 
+/-! ## histories of module-level customisation calls (`schemathesis.sanitization.configure` / `extend`) -/
+
+/-- one call; `none` = the argument is not given (NOT_SET) -/
+inductive CfgCall where
+  | configure (replacement : Option Str) (keys markers : Option (List Str))
+  | extend (keys markers : Option (List Str))
+  deriving Repr, DecidableEq
+
+/-- `configure` derives the new module-level configuration from the **current** one -/
+def CfgCall.apply (cur : Config) : CfgCall → Config
+  | .configure r ks ms => cur.fromConfig r ks ms
+  | .extend ks ms => cur.extend ks ms
+
+def runCalls (init : Config) (calls : List CfgCall) : Config := calls.foldl CfgCall.apply init
+
+/-- the other reading of "replace": `configure` starts again from a pristine configuration -/
+def CfgCall.applyFromPristine (pristine cur : Config) : CfgCall → Config
+  | .configure r ks ms => pristine.fromConfig r ks ms
+  | .extend ks ms => cur.extend ks ms
+
+def runCallsFromPristine (init : Config) (calls : List CfgCall) : Config :=
+  calls.foldl (CfgCall.applyFromPristine init) init
+
+/-- the call gives a new list of exact names (and so drops the names registered before) -/
+def CfgCall.resetsKeys : CfgCall → Bool
+  | .configure _ (some _) _ => true
+  | _ => false
+
+def CfgCall.resetsMarkers : CfgCall → Bool
+  | .configure _ _ (some _) => true
+  | _ => false
+
+/-- the call registers `k` as an exact name -/
+def CfgCall.registersKey (k : Str) : CfgCall → Prop
+  | .configure _ (some ks) _ => k ∈ ks
+  | .extend (some ks) _ => k ∈ ks
+  | _ => False
+
+def CfgCall.registersMarker (m : Str) : CfgCall → Prop
+  | .configure _ _ (some ms) => m ∈ ms
+  | .extend _ (some ms) => m ∈ ms
+  | _ => False
+
 /-! ## sanitize_value -/
 
 /-- what `sanitize_value` walks: `leaf` = anything that is neither a MutableMapping nor a MutableSequence -/
